@@ -55,9 +55,8 @@ func FindLayerUsers(prefix string) (InUseLayerMap, error) {
 			if err == syscall.EACCES {
 				continue
 			}
-			if err != syscall.ENOENT {
-				return nil, err
-			}
+			// ENOENT: kernel thread or zombie; anything else (ESRCH...): the process
+			// has exited since /proc was listed
 			progName = "[anon]"
 		} else {
 			progName = path.Base(progName)
@@ -88,7 +87,8 @@ func FindLayerUsers(prefix string) (InUseLayerMap, error) {
 		items, err := fdh.Readdir(-1)
 		fdh.Close()
 		if nil != err {
-			return nil, err
+			// the process exited while it was being examined
+			continue
 		}
 		if nil == items {
 			continue
